@@ -89,7 +89,7 @@ def canon_err(e, sess):
 
 def run_impl(case, bound=2.0):
     """Pre-filled queue, scripted transport, real Session.run in its own thread."""
-    from harness import fakesession as fs
+    from harness import fakesession_wire as fs
     from ncclient.transport.session import NetconfBase
     s = fs.make_session(capabilities=[])
     s._base = NetconfBase.BASE_11 if case['base'] == 1 else NetconfBase.BASE_10
@@ -294,7 +294,7 @@ def compositions(n):
 
 # ---------- concurrent submitters ----------
 def run_concurrent(case, bound=3.0):
-    from harness import fakesession as fs
+    from harness import fakesession_wire as fs
     from ncclient.transport.session import NetconfBase
     s = fs.make_session(capabilities=[])
     s._base = NetconfBase.BASE_11 if case['base'] == 1 else NetconfBase.BASE_10
